@@ -727,6 +727,32 @@ def rule_srk(ctx) -> None:
     chk.decide("return self.signature_block.srk_assets.compute_srk_hash(srk_id)" in norm(gh.node), "C06.srk-hash", gh.qual, "the container's SRK hash is the SRK assets' hash", "", "", A.loc(CNT, gh.node))
     vt = ctx.own(SRK, "SRKTable", "verify")
     chk.decide("ret.add_record_bytes('SRK Hash', self.compute_srk_hash())" in norm(vt.node), "C06.producer-verifier-twin", vt.qual, "the verifier reports the same compute_srk_hash()", "", "", A.loc(SRK, vt.node))
+    # v2: every record's SRK data container carries the record's own index (the parser files it under srk_data.srk_id)
+    lf = ctx.own(SRK, "SRKTableV2", "load_from_config")
+    loops = [s for s in A.body_of(lf.node) if isinstance(s, ast.For) and isinstance(s.iter, ast.Call) and norm(s.iter.func) == "enumerate" and isinstance(s.target, ast.Tuple)]
+    ok = False
+    detail = "no enumerate loop over the configured keys"
+    if loops:
+        ix = norm(loops[0].target.elts[0])
+        cfk = [c for c in ast.walk(loops[0]) if isinstance(c, ast.Call) and norm(c.func) == "SRKData.create_from_key"]
+        addr = [c for c in ast.walk(loops[0]) if isinstance(c, ast.Call) and A.call_name(c) == "add_record" and any(k.arg == "srk_id" and norm(k.value) == ix for k in c.keywords)]
+        if cfk:
+            idarg = A.arg_of(cfk[0], 1, "srk_id")
+            st = A.enclosing_stmt(cfk[0])
+            tgt = norm(st.targets[0]) if isinstance(st, ast.Assign) else ""
+            ok = idarg is not None and norm(idarg) == ix and f"srk_records[{ix}]" in tgt and tgt.endswith(".srk_data")
+            detail = f"SRKData.create_from_key(.., {norm(idarg) if idarg is not None else None}) stored to `{tgt}`"
+        elif addr:
+            ok, detail = True, "add_record(..., srk_id=index)"
+        else:
+            detail = "the SRK data container is never created with the record index"
+    chk.decide(ok, "C06.srk-tables", lf.qual + " srk_id", "record i gets an SRK data container with srk_id = i", detail, "SRKData.create_from_key(pub_key, ix) -> srk_records[ix].srk_data", A.loc(SRK, lf.node))
+    pa = ctx.own(SRK, "SRKTableArray", "parse")
+    chk.decide("srk_record = cast(SRKRecordV2, srk_tables[i].srk_records[srk_data.srk_id])" in norm(pa.node) and "srk_record.srk_data = srk_data" in norm(pa.node), "C06.srk-tables", pa.qual + " srk_id",
+               "the parser attaches the SRK data container to the record named by its srk_id", "", "", A.loc(SRK, pa.node))
+    ex = ctx.own(SRK, "SRKTableArray", "export")
+    chk.decide("srk_record = cast(SRKRecordV2, srk_table.srk_records[self.chip_config.used_srk_id])" in norm(ex.node) and "data += srk_record.srk_data.export()" in norm(ex.node), "C06.srk-tables", ex.qual + " srk_id",
+               "the exported SRK data container is the one of the used SRK", "", "", A.loc(SRK, ex.node))
     # the key used for verification is the record selected by used_srk_id
     for cn in ("SignatureBlock",):
         f = ctx.own(SB, cn, "verify_container_authenticity")
